@@ -666,6 +666,7 @@ class EnvCTM():
         # tl, tr, bl, br = sites
         if None in sites:
             return
+        opts_svd = dict(opts_svd)  # projector routines store their block predictions in it; keep the caller's dictionary intact
 
         if '1x2' in method or '2x1' in method or method == '1site':
             return update_1x2_projectors_(env, *sites, move, opts_svd, **kwargs)
